@@ -674,6 +674,56 @@ def execute_tracker(args):
         return None, info, "%s\n%s" % (e, traceback.format_exc())
 
 
+def trk_random_cases(seed, n, lo=5, hi=9, maxfresh=4):
+    """seeded random driver for C16: edit cases beyond the exhaustive bound (5-9 old lines, three author classes,
+    up to `maxfresh` fresh lines), in the vocabulary of spec/Tracker.tla (keep / re-indent / delete / replace per old
+    line, fresh lines in the gaps; surviving lines keep their order, identities are unique), so that the expected
+    author of every new line is forced and is computed by the specification's own `Exp` in trace mode"""
+    rnd = random.Random(1000003 * seed + 17)
+    out, seen = [], set()
+    while len(out) < n:
+        k = rnd.randint(lo, hi)
+        old = [[i, 0] for i in range(1, k + 1)]
+        # runs of the same author are what real files look like and what range merging is sensitive to
+        oa, cur = [], rnd.choice(["H", "A1", "A2"])
+        for _ in range(k):
+            if rnd.random() < 0.4:
+                cur = rnd.choice(["H", "A1", "A2"])
+            oa.append(cur)
+        nf = k + 1
+        fresh = 0
+        new = []
+        weights = rnd.choice([(6, 1, 1, 1), (3, 2, 2, 2), (2, 1, 4, 1), (2, 4, 1, 1), (1, 1, 1, 4)])
+        for i in range(k + 1):
+            g = 0
+            while fresh < maxfresh and rnd.random() < 0.25:
+                g += 1
+                fresh += 1
+            for _ in range(g):
+                new.append([nf, 0])
+                nf += 1
+            if i == k:
+                break
+            op = rnd.choices(["keep", "indent", "del", "repl"], weights)[0]
+            if op == "repl" and fresh >= maxfresh:
+                op = "keep"
+            if op == "keep":
+                new.append([i + 1, 0])
+            elif op == "indent":
+                new.append([i + 1, 1])
+            elif op == "repl":
+                new.append([nf, 0])
+                nf += 1
+                fresh += 1
+        c = {"a": "Upd", "old": old, "oa": oa, "new": new, "r": rnd.choice(["H", "A1", "A2"]), "kind": "edit"}
+        key = json.dumps(c)
+        if key in seen or new == old:
+            continue
+        seen.add(key)
+        out.append([c])
+    return out
+
+
 def trk_tags(beh):
     c = beh[0]
     return frozenset([json.dumps([c["old"], c["oa"], c["new"], c["r"]])])
